@@ -156,7 +156,7 @@ def oracle_sift(case, rec):
         with Trace() as tr:
             got_n = np.asarray(emd.sift.mask_sift(gens.arg(xt), mask_freqs=fa, nprocesses=case['nproc'], **kw))
         got, mf = emd.sift.mask_sift(gens.arg(xt), mask_freqs=list(fa) if isinstance(fa, list) else fa, nprocesses=1,
-                                     ret_mask_freq=True, **kw)
+                                     ret_mask_freq=[True, 1, np.True_][case['nphases'] % 3], **kw)
     except emd.support.EMDSiftCovergeError:
         raise Discard('convergence error')
     except Exception as e:
